@@ -63,6 +63,16 @@ def oracle(rec, rep):
     if not rec.ok:
         return vio
     P, enc, rd, tree = rec.parser, rec.enc, rec.rule_dir, rec.tree
+    # an accepted training password holding a character Python itself ends a line at (judged with
+    # str.splitlines of the running interpreter, not with anything extracted from the source)
+    for p in dict.fromkeys(rec.seqs[0] if rec.seqs else []):
+        brk = sorted({ord(ch) for ch in p if len(("a" + ch + "b").splitlines()) > 1})
+        if brk:
+            pos = "at the end" if all(ord(ch) not in brk for ch in p.rstrip("".join(chr(c) for c in brk))) else "inside"
+            vio.append({"sig": "C07:accepted-linebreak:" + cps(brk),
+                        "what": "password %r was accepted for training although it holds %s (%s), a character the line-oriented rule "
+                                "files cannot carry" % (p, cps(brk), pos), "replay": rep})
+            break
     culprit = bad_chars(all_values(rec))
     ctag = (":" + cps(culprit)) if culprit else ""
     expected = {}       # grammar name -> [(values, prob)]
@@ -322,8 +332,18 @@ def corrupt(rng, data, enc):
     return how, b"\n".join(lines)
 
 
+def seeds_for(rng, cp):
+    """The special character at the END of a password, alone, doubled at the end, and once at a random place."""
+    c = chr(cp)
+    w, w2 = rng.choice(T.WORDS[:12]), rng.choice(T.WORDS[:12])
+    return [(w + c, rng.choice([1, 2])), (c, 1), (w2 + c + c, 1), (T.seed_with_char(rng, None, cp), 1), (c + w2, 1)]
+
+
 def gen_run(rng, i, enc, pick):
-    entries = T.gen_entries(rng, enc, n_distinct=rng.randint(5, 12), specials=pick)
+    entries = T.gen_entries(rng, enc, n_distinct=rng.randint(5, 12))
+    for cp in pick:
+        for e in seeds_for(rng, cp):
+            entries.insert(rng.randint(0, len(entries)), e)
     # non-ASCII words long enough to enter the OMEN n-grams
     entries.append((rng.choice(T.NONASCII[enc]) + rng.choice(T.WORDS), rng.choice([1, 2, 3])))
     entries.append((" " + rng.choice(T.WORDS) + " ", 2))
@@ -344,7 +364,10 @@ def run(ctx):
     sc = common.scratch()
     n = ctx.scale(32, 320)
     n_corrupt = ctx.scale(90, 700)
-    uses_enc = K.extract_omen_scorer()["omen_scorer_uses_ruleset_encoding"]
+    try:
+        uses_enc = K.extract_omen_scorer()["omen_scorer_uses_ruleset_encoding"]
+    except Exception:      # noqa: BLE001
+        uses_enc = False
     vio, samples = [], []
     G = {"guesser": [], "scorer": [], "base": [], "write": [], "wlevels": [], "walpha": [], "wln": [], "omeng": [], "omens": [],
          "cfg": []}
@@ -439,6 +462,36 @@ def run(ctx):
         if len(samples) < 4 and i % 8 == 1:
             samples.append({"encoding": enc, "seeded": ["U+%04X" % c for c in pick], "values_with_specials": [s for s in vals if any(
                 ord(ch) in lbset | wsset | fmtset for ch in str(s))][:5], "violations_here": sorted({x["sig"] for x in v})[:4]})
+    # ---- an existing rule directory trained AGAIN under the same name: the second list has no digits, walks,
+    #      years or context strings, so whole categories become empty; config.ini must still name exactly
+    #      the files that exist (checked by the same oracle after each step)
+    plain_words = ["password", "love", "monkey", "dragon", "secret", "summer", "shadow", "football", "Princess", "LetMeIn"]
+    for j in range(ctx.scale(3, 24)):
+        enc = T.ENCODINGS[j % len(T.ENCODINGS)]
+        first = T.gen_entries(rng, enc, n_distinct=rng.randint(6, 10), kinds=["wd", "walk", "year", "ctx", "wsd", "digits", "dw", "na"])
+        first += [("1qaz" + rng.choice(plain_words), 2), (rng.choice(plain_words) + "2019", 1), (rng.choice(plain_words) + "#1", 1), ("123456", 2)]
+        second = [(rng.choice(plain_words) + rng.choice(["", "!", " ", "!!", "?"]), rng.choice([1, 2, 3])) for _ in range(rng.randint(3, 7))]
+        second.append((rng.choice(T.NONASCII[enc]) if enc != "utf-8" else "\u00fcber", 1))
+        files = [T.build_file(rng, [e for e in first if T.encodable(e[0], enc)], enc, "plain", b"\n"),
+                 T.build_file(rng, [e for e in second if T.encodable(e[0], enc)], enc, "plain", b"\n")]
+        cov = rng.choice([0.6, 1.0])
+        rep = {"enc": enc, "coverage": cov, "ngram": 4, "steps": [f.hex() for f in files]}
+        rd = os.path.join(sc, "RT%d" % j)
+        for step, data in enumerate(files):
+            pth = os.path.join(sc, "rt%d_%d.txt" % (j, step))
+            with open(pth, "wb") as f:
+                f.write(data)
+            rec = T.train_inprocess(pth, enc, rd, coverage=cov, ngram=4)
+            if rec.exc:
+                vio.append({"sig": "C07:trainer-aborts", "what": "run_trainer raised %s (retraining step %d)" % (rec.exc, step + 1), "replay": rep})
+            if not rec.ok:
+                dist["failed_runs"] += 1
+                break
+            v = oracle(rec, rep)
+            for x in v:
+                x["what"] = "[rule directory trained %s] %s" % ("for the first time" if step == 0 else "again, second list without digits/walks/years", x["what"])
+            vio += v
+            dist["retrain_steps"] = dist.get("retrain_steps", 0) + 1
     # ---- damaged files: the recovery paths of the two grammar readers
     cdir = os.path.join(sc, "corrupt")
     os.makedirs(cdir, exist_ok=True)
@@ -469,14 +522,18 @@ def run(ctx):
     corr.append(("probe:lower-keeps-values-safe", not bad_lower,
                  "str.lower() of %s yields a TAB / line break" % cps(bad_lower[:5]) if bad_lower else "all 0x110000 code points"))
     # the side conditions of Props/C07.v, spelled out for the evidence
-    rej = set(C["rejected"])
-    accepted_lb = [c for c in C["linebreak"] if c not in rej]
+    from lib_trainer.trainer_file_input import check_valid
+    accepted_lb = [c for c in C["linebreak"]
+                   if any(check_valid(x) for x in ("a" + chr(c) + "b", "a" + chr(c), chr(c), "a" + chr(c) + chr(c), chr(c) + "a"))]
     corr.append(("side-condition:linebreaks-rejected", not accepted_lb,
-                 "check_valid accepts %s, on which codecs line iteration / str.splitlines split" % cps(accepted_lb) if accepted_lb else ""))
+                 "the running check_valid accepts a password holding %s (first / middle / last / alone / doubled), on which codecs line "
+                 "iteration / str.splitlines split" % cps(accepted_lb) if accepted_lb else ""))
     corr.append(("side-condition:omen-scorer-reads-ruleset-encoding", bool(uses_enc),
                  "" if uses_enc else "OmenScorer._load_omen opens IP.level / CP.level without the ruleset encoding"))
     rule = ("trainer runs on lists seeded so that every probed white-space / line-break character the encoding can represent and a "
-            "sample of format characters occurs in some password (hex form, so the character reaches check_valid whole), encodings "
+            "sample of format characters occurs at the END of a password, alone, doubled at the end, at the start and at a random "
+            "place (hex form, so the character reaches check_valid whole); rule directories trained twice under the same name, the "
+            "second list leaving whole categories empty; encodings "
             "utf-8 / latin-1 / cp1251 / cp1252, ngram 2..4; then PcfgGrammar, lib_scorer load_grammar, load_rules and OmenScorer on the "
             "written ruleset, compared value-for-value with the trainer's counters and tables; config.ini lists vs directory "
             "listings; plus damaged copies of the files for the readers' recovery paths; non-trivial = a value on disk holds a "
@@ -499,8 +556,18 @@ def _cfg(rd):
 
 def replay(ctx, data):
     inp = data.get("input") or {}
+    sc = common.scratch()
+    if "steps" in inp:
+        out = []
+        rd = os.path.join(sc, "RTrp")
+        for step, hx in enumerate(inp["steps"]):
+            pth = os.path.join(sc, "rtrp_%d.txt" % step)
+            with open(pth, "wb") as f:
+                f.write(bytes.fromhex(hx))
+            rec = T.train_inprocess(pth, inp["enc"], rd, coverage=inp.get("coverage", 0.6), ngram=inp.get("ngram", 4))
+            out += oracle(rec, inp)
+        return out
     if "file" not in inp:
         return []
-    sc = common.scratch()
     rec = train(sc, "rp", inp["enc"], bytes.fromhex(inp["file"]), inp.get("coverage", 0.6), inp.get("ngram", 4))
     return oracle(rec, inp)
